@@ -77,6 +77,59 @@ pub fn check_bytes(s: &[u8], obs: &mut Obs) -> Vec<Violation> {
     out
 }
 
+/// The same strings through the muxer itself: each one submitted as a non-first video frame of an
+/// H.264 / H.265 recording; the sample stored for it must be the re-framed access unit.
+pub fn check_via_muxer(strings: &[Vec<u8>], obs: &mut Obs) -> Vec<Violation> {
+    use crate::exec::{run, ExecOpts};
+    let mut out = Vec::new();
+    for codec in [H264, H265] {
+        let name = if codec == H264 { "h264" } else { "h265" };
+        let mut r = crate::util::Rng::new(0xC14);
+        let mut cfg = Cfg::basic(codec);
+        cfg.fast_start = Some(strings.len() % 2 == 0);
+        let key = crate::gen::frames::video_frame(&mut r, codec, crate::gen::frames::FrameKind::KeyCfg, 8, false);
+        let mut ops = vec![Op::wv(0.0, key, true)];
+        let subs: Vec<&Vec<u8>> = strings.iter().filter(|s| !s.is_empty()).collect();
+        for (i, s) in subs.iter().enumerate() {
+            ops.push(Op::wv((i + 1) as f64 / 30.0, (*s).clone(), false));
+        }
+        ops.push(Op::Finish(FinishKind::InPlaceStats));
+        let h = History { cfg, ops };
+        let (ex, sink) = run(&h, &ExecOpts::default());
+        if ex.any_panic() {
+            obs.inconclusive += 1;
+            continue;
+        }
+        let bytes = sink.bytes();
+        let tree = bmff::parse_tree(&bytes);
+        let movie = bmff::parse_movie(&bytes, &tree);
+        let Some(vt) = movie.tracks.iter().find(|t| &t.handler == b"vide") else {
+            out.push(v(format!("muxer|{}|no-video-track", name), "finished file has no video track".into()));
+            continue;
+        };
+        let accepted: Vec<&Vec<u8>> = subs.iter().zip(ex.results[1..].iter()).filter(|(_, r)| r.is_ok()).map(|(s, _)| *s).collect();
+        obs.count("strings_submitted_to_the_muxer", subs.len() as u64);
+        obs.count("strings_accepted_by_the_muxer", accepted.len() as u64);
+        if vt.samples.len() != accepted.len() + 1 {
+            out.push(v(format!("muxer|{}|sample-count", name), format!("{} accepted frames but {} video samples", accepted.len() + 1, vt.samples.len())));
+            continue;
+        }
+        for (smp, s) in vt.samples[1..].iter().zip(accepted.iter()) {
+            let a = smp.offset as usize;
+            let got = bytes.get(a..a + smp.size as usize).unwrap_or(&[]);
+            let want = mb::to_length_prefixed(s);
+            if got != want.as_slice() {
+                out.push(v(
+                    format!("muxer|{}|stored-sample", name),
+                    format!("frame {} was stored as {} ; expected {}", crate::util::hex_short(s), crate::util::hex_short(got), crate::util::hex_short(&want)),
+                ));
+                break;
+            }
+        }
+    }
+    out
+}
+
 /// Constructive: NAL list known by construction (emulation-safe bodies), random start codes,
 /// leading garbage, trailing zeros.
 pub fn constructive(r: &mut crate::util::Rng, obs: &mut Obs) -> (Vec<u8>, Vec<Violation>) {
@@ -165,6 +218,12 @@ pub fn adts_history(protection_absent: bool, delta: i32, lo: u32, hi: u32, mix: 
         // build header with the declared length, then fill the buffer to buf_len
         let pa = if mix { (j % 2 == 0) == protection_absent } else { protection_absent };
         let mut f = mb::build_adts(1, 3, 2, pa, &[], Some(flen as usize), 0, 0);
+        // every value of the fields that do not take part in framing, in particular
+        // number_of_raw_data_blocks_in_frame 0..3 under both protection modes
+        if j % 3 != 0 {
+            mb::scramble_adts_free_bits(&mut f, r.next_u64());
+            f[6] = (f[6] & 0xfc) | ((j / 3) % 4) as u8;
+        }
         while f.len() < buf_len {
             f.push((f.len() as u8).wrapping_mul(31).wrapping_add(j as u8) | 1);
         }
